@@ -114,7 +114,7 @@ impl<K: View, V: View> HashMap<K, V> {
 /// from input must be bounded (16 MiB, the codec's max_buffer_size).
 #[verifier::external_body]
 pub fn hashmap_with_capacity_checked<K: View, V: View>(n: usize) -> (r: HashMap<K, V>)
-    requires n <= 16777216,
+    requires n <= 16777216, /*@PL:alloc_proportional*/
     ensures r@ == Map::<K::V, V::V>::empty(),
 { unimplemented!() }
 pub open spec fn kv_ref_views<'a, K: View, V: View>(s: Seq<(&'a K, &'a V)>) -> Seq<(K::V, V::V)> {
